@@ -62,9 +62,9 @@ def main : IO Unit := do
     if !(getRowOkWith baseMaps[r.fam]? r) || !(raiseOk families r) then
       IO.println s!"get {r.fam} {r.meth} [{showL r.fixed}] [{showL r.expl}] {r.mode}"
   for r in ctorRows do
-    if !(ctorRowOk r) then IO.println s!"ctor {r.fam} [{showL r.given}] [{showL r.fixed}] {r.order}"
+    if !(ctorRowOk families r) then IO.println s!"ctor {r.fam} [{showL r.given}] [{showL r.fixed}] {r.order}"
   for r in condRows do
-    if !(condRowOk r) then IO.println s!"cond {r.fam} [{showL r.fixed}]"
+    if !(condRowOk families r) then IO.println s!"cond {r.fam} [{showL r.fixed}]"
   for r in fitRows do
     if !(fitTableOk families scipyShapes baseMaps [r]) then IO.println s!"fit {r.fam} [{showL r.fixed}]"
   for r in lsqRows do
@@ -807,8 +807,8 @@ def main(ck):
     ]
     ck.partial = {
         "lognormal_*_partial, normal_*_partial, gg_*_partial, vonmises_*_partial":
-            "inverse and monotonicity laws proven relative to an abstract strictly monotone Phi / P(m,.) / V_kappa "
-            "with inverse (scipy's contract); that scipy's special functions meet the contract, and pdf = d/dx cdf "
+            "inverse, monotonicity, range [0,1] and limit 0 / 1 laws proven relative to an abstract monotone Phi / "
+            "P(m,.) / V_kappa with inverse, range and limits (scipy's contract); that scipy's special functions meet the contract, and pdf = d/dx cdf "
             "for these families, is observed numerically on the explored points only",
         "GammaScipyDistribution, BetaScipyDistribution (ScipyDistribution subclasses by scipy_dist_name), "
         "LogNormalNormFitDistribution":
